@@ -901,3 +901,73 @@ Proof.
         by (pose proof (nestb_len (N.to_nat bound)) as L; unfold lenN in L; lia).
       lia.
 Qed.
+
+(* ------------------------------------------------------------------------ *)
+(* float64(int) stays a 64-bit pattern for every Go int *)
+Lemma f64_of_Z_bound z :
+  (- 9223372036854775808 <= z < 9223372036854775808)%Z -> f64_of_Z z < 18446744073709551616.
+Proof.
+  intro Hz. unfold f64_of_Z. destruct z as [|p|p]; [lia| |].
+  all: set (m := Z.to_N (Z.abs _)); set (s := if (_ <? 0)%Z then _ else 0).
+  all: assert (Hs : s <= 9223372036854775808) by (subst s; destruct (_ <? 0)%Z; lia).
+  all: assert (Hm0 : 0 < m) by (subst m; lia).
+  all: assert (Hm : m <= 2 ^ 63) by (subst m; change (2 ^ 63) with 9223372036854775808; lia).
+  all: clearbody m s; clear Hz.
+  all: pose proof (N.log2_spec m Hm0) as [L1 L2]; set (e := N.log2 m) in *.
+  all: assert (He : e <= 63) by (subst e; change 63 with (N.log2 (2 ^ 63)); apply N.log2_le_mono; exact Hm).
+  all: destruct (N.leb_spec e 52) as [H52|H52].
+  all: try (
+    assert (P : m * 2 ^ (52 - e) < 2 ^ 53)
+      by (replace 53 with (N.succ e + (52 - e)) by lia; rewrite N.pow_add_r;
+          apply N.mul_lt_mono_pos_r; [apply N.neq_0_lt_0, N.pow_nonzero; discriminate|exact L2]);
+    change (2 ^ 53) with 9007199254740992 in P;
+    assert (Q : (e + 1023) * 4503599627370496 <= 1075 * 4503599627370496) by (apply N.mul_le_mono_r; lia);
+    lia).
+  all: set (sh := e - 52); set (q := m / 2 ^ sh).
+  all: assert (Hq : q < 2 ^ 53)
+      by (subst q; apply N.div_lt_upper_bound; [apply N.pow_nonzero; discriminate|];
+          rewrite <- N.pow_add_r; replace (sh + 53) with (N.succ e) by (subst sh; lia); exact L2).
+  all: change (2 ^ 53) with 9007199254740992 in Hq.
+  all: assert (Q : (e + 1023) * 4503599627370496 <= 1086 * 4503599627370496) by (apply N.mul_le_mono_r; lia).
+  all: destruct ((2 ^ (sh - 1) <? m mod 2 ^ sh) || ((m mod 2 ^ sh =? 2 ^ (sh - 1)) && N.odd q)); lia.
+Qed.
+
+(* the domain of WriteObject values, independent of the reader configuration:
+   strings below 2^32 bytes, numbers as 64-bit patterns, Go ints *)
+Definition wval_dom (v : wval) : Prop :=
+  match v with
+  | WStr s => lenN s < 4294967296
+  | WNum n => n < 18446744073709551616
+  | WInt z => (- 9223372036854775808 <= z < 9223372036854775808)%Z
+  | WBool _ => True
+  end.
+
+Lemma wval_dom_ok v : wval_dom v -> wval_ok cfg_fixed v.
+Proof.
+  destruct v as [s|n|z|b]; cbn [wval_dom wval_ok]; intro H; try exact H.
+  - split; [exact H|now left].
+  - now apply f64_of_Z_bound.
+Qed.
+
+Lemma read_object_write_fixed l r :
+  Forall (fun kv => lenN (fst kv) < 65536 /\ wval_dom (snd kv)) l ->
+  read_object cfg_fixed (write_object l ++ r)
+  = (Ok (map (fun kv => (fst kv, aval_of_wval (snd kv))) l, lenN (write_object l), r), 1).
+Proof.
+  intro H. apply read_object_write; [reflexivity|].
+  eapply Forall_impl; [|exact H]. intros [k v] [Hk Hv]. split; [exact Hk|apply wval_dom_ok, Hv].
+Qed.
+
+(* decode: consumed prefix in the usual form *)
+Lemma decode_total cfg e b :
+  fst (decode cfg e b) <> Err err_out_of_fuel /\
+  (forall s, fst (decode cfg e b) <> Panic s) /\
+  (forall v n rest, fst (decode cfg e b) = Ok (v, n, rest) ->
+     1 <= n /\ n <= lenN b /\ rest = skipn (N.to_nat n) b).
+Proof.
+  destruct (decode_okd cfg e b) as (H1 & H2 & H3). split; [exact H1|]. split; [exact H2|].
+  intros v n rest E. destruct (H3 _ _ _ E) as [Hn [pre [Hb Hl]]]. split; [exact Hn|].
+  subst b n. split.
+  - rewrite lenN_app. lia.
+  - unfold lenN. rewrite Nat2N.id. now rewrite skipn_app_exact.
+Qed.
